@@ -120,6 +120,12 @@ func (this *RaftTransport) addNodeAddress(nodeId uint64, address string) {
 
 func (this *RaftTransport) removeNodeAddress(nodeId uint64) {
 	this.clusterConn.RemoveNode(nodeId)
+
+	// The node's connection is closed together with its address: a client kept for
+	// it could never reach the node again, should it join once more
+	this.nodeClientsMu.Lock()
+	delete(this.nodeClients, nodeId)
+	this.nodeClientsMu.Unlock()
 }
 
 func (this *RaftTransport) addGroup(group *RaftGroup) error {
